@@ -73,12 +73,17 @@ func main() {
 		}
 		overlay[src] = dst
 	}
-	// the runtime as a virtual sub-package of the module
-	rts, _ := os.ReadDir(rtSrc)
-	for _, e := range rts {
-		if strings.HasSuffix(e.Name(), ".go") {
-			overlay[filepath.Join(repo, "verifrt", e.Name())] = filepath.Join(rtSrc, e.Name())
+	// the runtime as a virtual sub-package of the module (with its own sub-packages)
+	filepath.Walk(rtSrc, func(p string, info os.FileInfo, err error) error {
+		if err == nil && !info.IsDir() && strings.HasSuffix(p, ".go") {
+			rel, _ := filepath.Rel(rtSrc, p)
+			overlay[filepath.Join(repo, "verifrt", rel)] = p
 		}
+		return nil
+	})
+	// the file backend: package os -> the virtual file system shim, if everything it uses is modelled
+	if note := rewriteFileBackend(repo, out, filepath.Join(rtSrc, "vos"), overlay, stats); note != "" {
+		fmt.Fprintln(os.Stderr, "INSTR-NOTE: file backend not instrumented:", note)
 	}
 	js, _ := json.MarshalIndent(map[string]interface{}{"Replace": overlay}, "", " ")
 	fmt.Println(string(js))
@@ -220,4 +225,126 @@ func rewrite(fset *token.FileSet, f *ast.File, stats map[string]int) (bool, erro
 		return left == nil
 	})
 	return changed, left
+}
+
+const vosPath = rtPath + "/vos"
+
+// exportedOf lists the exported top-level identifiers of the Go package in dir.
+func exportedOf(dir string) map[string]bool {
+	out := map[string]bool{}
+	pkgs, err := parser.ParseDir(token.NewFileSet(), dir, nil, 0)
+	if err != nil {
+		return out
+	}
+	for _, p := range pkgs {
+		for _, f := range p.Files {
+			for _, d := range f.Decls {
+				switch x := d.(type) {
+				case *ast.FuncDecl:
+					if x.Recv == nil && x.Name.IsExported() {
+						out[x.Name.Name] = true
+					}
+				case *ast.GenDecl:
+					for _, sp := range x.Specs {
+						switch y := sp.(type) {
+						case *ast.TypeSpec:
+							if y.Name.IsExported() {
+								out[y.Name.Name] = true
+							}
+						case *ast.ValueSpec:
+							for _, n := range y.Names {
+								if n.IsExported() {
+									out[n.Name] = true
+								}
+							}
+						}
+					}
+				}
+			}
+		}
+	}
+	return out
+}
+
+// rewriteFileBackend rewrites `import "os"` in persist/file to the shim, provided that every os.X the
+// package uses exists in the shim and that it uses no other way to reach the file system.
+func rewriteFileBackend(repo, out, vosDir string, overlay map[string]string, stats map[string]int) string {
+	dir := filepath.Join(repo, "persist", "file")
+	ents, err := os.ReadDir(dir)
+	if err != nil {
+		return err.Error()
+	}
+	have := exportedOf(vosDir)
+	if len(have) == 0 {
+		return "shim sources not found"
+	}
+	type job struct {
+		src string
+		f   *ast.File
+		fs  *token.FileSet
+	}
+	var jobs []job
+	for _, e := range ents {
+		n := e.Name()
+		if e.IsDir() || !strings.HasSuffix(n, ".go") || strings.HasSuffix(n, "_test.go") {
+			continue
+		}
+		src := filepath.Join(dir, n)
+		fset := token.NewFileSet()
+		f, err := parser.ParseFile(fset, src, nil, parser.ParseComments)
+		if err != nil {
+			return err.Error()
+		}
+		osName := ""
+		for _, imp := range f.Imports {
+			switch strings.Trim(imp.Path.Value, `"`) {
+			case "os":
+				osName = "os"
+				if imp.Name != nil {
+					osName = imp.Name.Name
+				}
+			case "io/ioutil", "syscall", "golang.org/x/sys/unix", "os/exec", "io/fs", "sync", "sync/atomic":
+				return n + " imports " + imp.Path.Value + ", which the shim does not model"
+			}
+		}
+		if osName == "" {
+			continue
+		}
+		bad := ""
+		ast.Inspect(f, func(nd ast.Node) bool {
+			if s, ok := nd.(*ast.SelectorExpr); ok {
+				if id, ok := s.X.(*ast.Ident); ok && id.Name == osName && id.Obj == nil && !have[s.Sel.Name] {
+					bad = "os." + s.Sel.Name
+				}
+			}
+			if g, ok := nd.(*ast.GoStmt); ok {
+				bad = fmt.Sprintf("go statement at %s", fset.Position(g.Pos()))
+			}
+			return bad == ""
+		})
+		if bad != "" {
+			return n + " uses " + bad + ", which the shim does not model"
+		}
+		for _, imp := range f.Imports {
+			if strings.Trim(imp.Path.Value, `"`) == "os" {
+				imp.Name = ast.NewIdent(osName)
+				imp.Path.Value = `"` + vosPath + `"`
+			}
+		}
+		jobs = append(jobs, job{src, f, fset})
+	}
+	os.MkdirAll(filepath.Join(out, "persist-file"), 0o755)
+	for _, j := range jobs {
+		var buf bytes.Buffer
+		if err := format.Node(&buf, j.fs, j.f); err != nil {
+			return err.Error()
+		}
+		dst := filepath.Join(out, "persist-file", filepath.Base(j.src))
+		if err := os.WriteFile(dst, buf.Bytes(), 0o644); err != nil {
+			return err.Error()
+		}
+		overlay[j.src] = dst
+		stats["file-backend-os-import"]++
+	}
+	return ""
 }
